@@ -89,7 +89,7 @@ impl Function for RandomBytes {
 }
 
 fn get_length(value: Value) -> std::result::Result<usize, &'static str> {
-    let length = value.try_integer().expect("length must be an integer");
+    let length = value.try_integer().map_err(|_| "length must be an integer")?;
     if length < 0 {
         return Err(LENGTH_TOO_SMALL_ERR);
     }
